@@ -138,6 +138,7 @@ func Recv[T any](ch <-chan T) (T, bool) {
 	syncPoint(s, -1)
 	for {
 		pumpWatchers()
+		pumpTimers()
 		select {
 		case v, ok := <-ch:
 			return v, ok
@@ -242,6 +243,7 @@ func ResetGlobals() {
 	clockReads = nil
 	crashPending = nil
 	mailbox = nil
+	simTimers = nil
 }
 
 var globalSeq int64
